@@ -81,7 +81,9 @@ def main():
         caught = {}
         for chk in [prop] + [c for c in extra if c.startswith("C")]:
             t0 = time.time()
-            rc, out = sh("./run.sh %s quick" % chk, cwd="/verif", timeout=1500,
+            # VERIF_SNAPSHOT: run the checks from a frozen copy of /verif (so that edits in progress do not disturb the measurement)
+            vdir = os.environ.get("VERIF_SNAPSHOT", "/verif")
+            rc, out = sh("./run.sh %s quick" % chk, cwd=vdir, timeout=1500,
                          env=dict(ENV, VERIF_REPO=wt, VERIF_OUT="/tmp/seedroot-%s" % sid))
             kinds = sorted(set(re.findall(r"^\s+\[([^\]]+)\]", out, re.M)))
             caught[chk] = {"exit": rc, "violation_kinds": kinds[:8], "wall_s": round(time.time() - t0, 1)}
